@@ -4,7 +4,7 @@ import math
 import numpy as np
 from hypothesis import strategies as st
 
-from ..core import given_law
+from ..core import given_law, plain_law
 from .. import gen
 
 RULE = ("N in 2..48 odd and even (thorough to 96); complex fields: dense noise, sparse impulses, constant, dyadic, masked phase "
@@ -206,7 +206,37 @@ def body(ctx, case):
     ctx.close(oc, a * out + b * np.asarray(ov), TOL, "%s linearity" % case["prop"], scale=sc)
 
 
+# ------------------------------------------------------------------ concurrent calls from threads of one process
+
+def thread_cases(tier):
+    return [{"prop": p_, "N": N} for p_ in ("angular", "one", "two", "lens") for N in (128, 256)]
+
+
+def thread_body(ctx, case):
+    """Fields propagated at the same time by threads of one process (one thread per wavelength or layer, different
+    geometries on the same grid size) come out as when propagated one after the other."""
+    o = op()
+    N = case["N"]
+    ctx.case(case, nontrivial=True, classes=[case["prop"], "N%d" % N])
+    rng = gen.np_rng(N + len(case["prop"]))
+    thunks = []
+    for i in range(8):
+        u = rng.normal(size=(N, N)) + 1j * rng.normal(size=(N, N))
+        wvl, d1, z = (0.5 + 0.1 * i) * 1e-6, 1e-3 * (1 + 0.05 * i), 10.0 * (1 + i) * (-1) ** i
+        if case["prop"] == "angular":
+            thunks.append(lambda u=u, wvl=wvl, d1=d1, z=z, i=i: o.angularSpectrum(u, wvl, d1, d1 * (1 + 0.1 * (i % 3)), z))
+        elif case["prop"] == "two":
+            thunks.append(lambda u=u, wvl=wvl, d1=d1, z=z, i=i: o.twoStepFresnel(u, wvl, d1, d1 * (1.5 + 0.1 * i), z))
+        elif case["prop"] == "one":
+            thunks.append(lambda u=u, wvl=wvl, d1=d1, z=z: o.oneStepFresnel(u, wvl, d1, z))
+        else:
+            thunks.append(lambda u=u, wvl=wvl, d1=d1, z=z: o.lensAgainst(u, wvl, d1, abs(z)))
+    with np.errstate(all="ignore"):
+        ctx.thread_agreement(thunks, case["prop"])
+
+
 LAWS = [
+    plain_law("threads", thread_cases, thread_body, shards={"quick": 4, "thorough": 4}),
     given_law("power_linear_xl", cases(384), body, {"quick": 0, "thorough": 60}, shards={"quick": 1, "thorough": 16}),
     given_law("power_linear", cases(48), body, {"quick": 1200, "thorough": 12500}, shards={"quick": 3, "thorough": 16}),
     given_law("power_linear_large", cases(96), body, {"quick": 60, "thorough": 1500}, shards={"quick": 3, "thorough": 16}),
